@@ -5,13 +5,13 @@ from vlib.runner import Part, Violation
 from vlib import rt, obs
 
 ID = "C01"
-VARIANTS = ["plain"]
+VARIANTS = ["asan"]
 TARGETS = ["ovni-static"]
 LEVEL = "exploration"
 RULE = ("single-thread libovni programs run through the rtdrv interpreter: proc_init, thread_init, then a sequence "
         "over emit(any printable MCV except the reserved OF[ / OF], any clock, payload built by 0..k "
         "ovni_payload_add calls totalling 0 or 2..16 bytes), jumbo-emit (size 0 .. beyond the buffer capacity, "
-        "pattern data), flush, mark set/push/pop; half of the programs are boundary-targeted: a filler jumbo "
+        "pattern data), flush, mark set/push/pop; libovni and driver built with ASan; 40% of the runs under an LD_PRELOAD shim that turns every write() into a real short write; half of the programs are boundary-targeted: a filler jumbo "
         "brings the 2 MiB buffer to MAX-d (d in 0..64, every residue of the thresholds) before 1-4 probe events of "
         "every size class; ending flush, thread_free, proc_fini.  Oracle: stream.obs decoded by the independent "
         "codec = 8-byte header + exactly the emitted events, in call order, byte for byte (library-stamped mark "
@@ -25,7 +25,8 @@ PRINT = [chr(c) for c in range(32, 127)]
 
 
 def setup(ctx):
-    return {"rtdrv": rt.compile_driver(ctx.b("plain"))}
+    b = ctx.b("asan")
+    return {"rtdrv": rt.compile_driver(b), "shim": rt.compile_shim(b)}
 
 
 mcvs = st.tuples(st.sampled_from(PRINT), st.sampled_from(PRINT), st.sampled_from(PRINT)).map("".join).filter(
@@ -107,7 +108,8 @@ def programs(draw):
                 ops.append(["jumbo", "OB.", draw(clocks), n, draw(st.integers(0, 255))])
             probes = draw(st.lists(one_op(), min_size=1, max_size=4))
             ops += probes
-    return {"ops": ops, "tmpdir": draw(st.integers(0, 4)) == 0}
+    return {"ops": ops, "tmpdir": draw(st.integers(0, 4)) == 0,
+            "short": draw(st.sampled_from([None, None, None, "half", "one"]))}
 
 
 def script_lines(case, tid=77):
@@ -129,7 +131,8 @@ def run(case, ctx):
     lines = script_lines(case)
     d = ctx.newdir()
     try:
-        rr = rt.run_script(ctx.shared["rtdrv"], lines, d, tmpdir_mode=case.get("tmpdir", False))
+        env = rt.shim_env(ctx.shared["shim"], short=case["short"]) if case.get("short") else None
+        rr = rt.run_script(ctx.shared["rtdrv"], lines, d, tmpdir_mode=case.get("tmpdir", False), env=env)
         if rr.res.kind != "ok":
             raise Violation("driver did not finish: %s" % rr.res.brief())
         path = os.path.join(rr.tracedir, "loom.node.1", "proc.5", "thread.77", "stream.obs")
@@ -150,6 +153,8 @@ def run(case, ctx):
         crossed = len(data) > MAX or any(e.mcv == "OF[" for e in dec[:-2])
         sizes = {len(e.payload) for e in dec if not e.jumbo}
         cls = ["tmpdir" if case.get("tmpdir") else "direct"]
+        if case.get("short"):
+            cls.append("short-writes:" + case["short"])
         if refused:
             cls.append("has-refused-op")
         if crossed:
